@@ -1,0 +1,28 @@
+//go:build verif
+
+package lib
+
+import "sync/atomic"
+
+type verifHookFunc func(name string, id uint64)
+
+var verifHook atomic.Pointer[verifHookFunc]
+
+// VerifPoint marks a yield point. With the "verif" build tag the verification
+// harness may install a hook that is called, in the goroutine that reached the
+// point, with the point's name and the id of the process it concerns.
+func VerifPoint(name string, id uint64) {
+	if h := verifHook.Load(); h != nil {
+		(*h)(name, id)
+	}
+}
+
+// SetVerifHook installs (or, with nil, removes) the yield-point hook.
+func SetVerifHook(f func(name string, id uint64)) {
+	if f == nil {
+		verifHook.Store(nil)
+		return
+	}
+	h := verifHookFunc(f)
+	verifHook.Store(&h)
+}
